@@ -46,7 +46,7 @@ def main(argv):
     tier, seed, replay = tier_and_seed(argv)
     v = Verdict(PROP, tier, seed)
     proofs_ok, h_ok, unrec = standard_proof_steps(
-        v, PROP, ['pixel'], ['theories/Props/C17.vo'], ['c17', 'truth-cli'],
+        v, PROP, ['pixel', 'texfmt'], ['theories/Props/C17.vo'], ['c17', 'truth-cli'],
         corr_targets=['theories/Corr/C17.vo'])
 
     cases, texts, kinds = [], [], []
@@ -134,7 +134,7 @@ def main(argv):
     })
     return v.finish(
         level='proof',
-        checker_cmd='python3 gen/pixel.py ; cd coq && make theories/Corr/C17.vo theories/Props/C17.vo ; coqc work/audit_C17.v (Print Assumptions) ; harness/target/debug/c17 pixels|dims|sources ; coqc work/cases_C17/*.v',
+        checker_cmd='python3 gen/pixel.py ; python3 gen/texfmt.py (gen_extract_bound: the pixel bound on the padded image) ; cd coq && make theories/Corr/C17.vo theories/Props/C17.vo ; coqc work/audit_C17.v (Print Assumptions) ; harness/target/debug/c17 pixels|dims|sources ; coqc work/cases_C17/*.v',
         trusted_base=['Flocq 4.1.0 binary32 (the meaning of the f32 luminance formula of GRAY_8)',
                       'PNG encoding/decoding (image crate) is a Section hypothesis: lossless for RGBA8; it appears as an explicit premise of C17_extract_compile_roundtrip and is exercised by the round-trip oracle',
                       'modelled, not verified: Model/Pixel.v restates image_io.rs (produce_image_from_entry, load_img_file_for_entry), anm/mod.rs (apply_anm_image_source, update_entry_from_anm_image_source, finalize_entry_texture, validate_and_transcode_texture_for_entry) and soft_option.rs by hand; color.rs is translated by gen/pixel.py'],
